@@ -120,11 +120,12 @@ def tlc_action_coverage(out):
     return cov
 
 
-def model_check(module, cfg, env=None, workers=NCPU, timeout=1800, expect_actions=(), extra=()):
+def model_check(module, cfg, env=None, workers=NCPU, timeout=1800, expect_actions=(), extra=(), coverage=True):
     """(M): exhaustive TLC run; any invariant/property violation of the *design* is a machinery failure
     (the spec itself is wrong), as is an action of `expect_actions` that was never taken (vacuity)."""
     t0 = time.time()
-    rc, out = run_tlc(module, cfg, env=env, workers=workers, timeout=timeout, extra=['-coverage', '1'] + list(extra))
+    rc, out = run_tlc(module, cfg, env=env, workers=workers, timeout=timeout,
+                      extra=(['-coverage', '1'] if coverage else []) + list(extra))
     st = tlc_stats(out)
     if rc != 0 or 'Model checking completed. No error has been found.' not in out:
         raise MachineryError('model check %s/%s failed (rc=%s):\n%s' % (module, cfg, rc, out[-4000:]))
